@@ -49,6 +49,12 @@ pub fn grid(thorough: bool) -> Vec<GridNum> {
         (0, 5),
         (1, 32767),
         (5, 1),
+        // components at the ends of the exact range
+        (-2147483648, 3),
+        (2147483647, 2),
+        (-2147483647, 2),
+        (1, 2147483647),
+        (-2147483648, 2147483647),
     ] {
         g.push(lit(&format!("{}/{}", a, b), exact(a, b)));
     }
